@@ -297,3 +297,34 @@ Definition is_modelled (c : parse_case) : bool :=
 
 Definition chk_rsplit (c : pystr * option (pystr * pystr)) : bool :=
   option_eqb (fun a b => str_eqb (fst a) (fst b) && str_eqb (snd a) (snd b)) (rsplit1 colon (fst c)) (snd c).
+
+(* ---- idpyoidc.client.cookie (the relying party's helper), signed-only variant:
+     make_cookie:  load | timestamp | hexdigest(HMAC-SHA1(seed, load ‖ timestamp))     — NO framing of the MAC input
+     parse_cookie: three parts -> safe_str_cmp(sig, cookie_signature(seed, cleartext, timestamp)) (exact text
+                   comparison: a part that is not exactly the signature text is refused)
+   The AES-GCM variant (four parts, timestamp as associated data) is not modelled (oracle only). ---- *)
+Definition client_mac (k : nat) (load ts : pystr) : term := Mac k (Atom (load ++ ts)).
+Definition client_make (k : nat) (load ts : pystr) : wire :=
+  chs load ++ Ch bar :: chs ts ++ Ch bar :: [Bl (client_mac k load ts)].
+Definition client_parse (btxt : term -> pystr) (k : nat) (w : wire) : res (pystr * pystr) :=
+  match wsplit w with
+  | [c; t; s] =>
+      match s with
+      | [Bl m] => if macv k (wtext btxt c ++ wtext btxt t) m then Ok (wtext btxt c, wtext btxt t) else rejected
+      | _ => rejected
+      end
+  | [_; _; _; _] => Unmodelled
+  | _ => rejected
+  end.
+
+Definition client_case : Type := nat * btab * wire * option (pystr * pystr).
+Definition client_model (c : client_case) : res (pystr * pystr) :=
+  let '(k, tab, w, _) := c in client_parse (btab_lookup tab) k w.
+Definition chk_client (c : client_case) : bool :=
+  let '(_, _, _, obs) := c in
+  match client_model c, obs with
+  | Ok x, Some y => str_eqb (fst x) (fst y) && str_eqb (snd x) (snd y)
+  | Err _, None => true
+  | Unmodelled, _ => true
+  | _, _ => false
+  end.
